@@ -791,15 +791,15 @@ def tag_generation(ctx, facts, rule="TAG"):
     ctx.count(bodies=len(tree))
     cp = chunk_b.path[len(base):]
     # transposition
-    tr = next((b for p, b in sorted(tree.items()) if not b.coroutine and any(t2 for _, t2 in flow.find_calls(b, re.compile(r"ops::Index::index$")) if flow.expr_of(b, t2["args"][0], max_depth=4) == ("upvar", "split_rows"))), None)
+    # (captured variables are matched by position and role, never by their source names)
+    tr = next((b for p, b in sorted(tree.items()) if not b.coroutine and b.kind == "Closure" and any(t2 for _, t2 in flow.find_calls(b, re.compile(r"ops::Index::index$")) if flow.expr_of(b, t2["args"][0], max_depth=4)[0] == "upvar" and flow.expr_of(b, t2["args"][1], max_depth=4) == ("arg", 2))), None)
     okt = False
     if tr is not None:
         r = flow.expr_of(tr, {"cp": [0]}, max_depth=10)
         src = r
         while src[0] == "call" and re.search(r"(Clone::clone|Deref::deref)$", src[1]):
             src = src[2][0]
-        okt = src == ("call", "std::ops::Index::index", (("call", "std::ops::Index::index", (("upvar", "split_rows"), ("arg", 2))), ("upvar", flow.upvar_name(tr, 1) or "col")))
-        okt = okt or (src[0] == "call" and src[1].endswith("Index::index") and src[2][0] == ("call", "std::ops::Index::index", (("upvar", "split_rows"), ("arg", 2))) and src[2][1][0] == "upvar")
+        okt = src[0] == "call" and src[1].endswith("Index::index") and src[2][0][0] == "call" and src[2][0][1].endswith("Index::index") and src[2][0][2][0][0] == "upvar" and src[2][0][2][1] == ("arg", 2) and src[2][1][0] == "upvar" and src[2][1] != src[2][0][2][0]
     ctx.ob(rule, "gen:transpose[i][col]", okt, "column col holds word col of row i at lane i" if okt else "the transposition does not take split_rows[i][col] (rows and columns mixed up: tags are computed over the wrong words)", site_of(tr) if tr is not None else site_of(chunk_b))
     # multiply(ctx_k, record i, key_k, col_k) over zip(tag_ctx, zip(keys, cols))
     z = flow.find_calls(chunk_b, re.compile(r"Iterator::zip$"))
@@ -815,7 +815,7 @@ def tag_generation(ctx, facts, rule="TAG"):
     if mulb is not None:
         m = flow.find_calls(mulb, re.compile(r"(sh_multiply|semi_honest_multiply)$"))[0]
         a = [flow.expr_of(mulb, x, max_depth=8) for x in m[1]["args"]]
-        okm = a[1][0] == "call" and a[1][1].endswith("From::from") and a[1][2][0][0] == "upvar" and {a[2], a[3]} == {("upvar", "key"), ("upvar", "data")} and "upvar" in str(a[0])
+        okm = a[1][0] == "call" and a[1][1].endswith("From::from") and a[1][2][0][0] == "upvar" and a[2][0] == "upvar" and a[3][0] == "upvar" and a[2] != a[3] and "upvar" in str(a[0])
     ctx.ob(rule, "gen:key-col-times-column-col", okz and okm, "zip(tag contexts, zip(expanded keys, columns)) -> multiply(ctx, record(chunk index), key, column)" if okz and okm else "keys, columns and per-column contexts are not zipped in step, or the product is not key * column under the chunk's record id", site_of(chunk_b, z[0][0]) if z else site_of(chunk_b))
     # sum
     tf = flow.find_calls(chunk_b, re.compile(r"TryStreamExt::try_fold$"))
@@ -841,15 +841,23 @@ def tag_generation(ctx, facts, rule="TAG"):
     if catb is not None:
         c = flow.find_calls(catb, re.compile(r"concatenate_row_and_tag$"))[0]
         a0, a1 = (flow.expr_of(catb, x, max_depth=8) for x in c[1]["args"])
-        row_i = [x for x in _walk_all(a0) if x == ("arg", 2)] or ("'i'" in str(a0) and "chunk" in str(a0))
-        oka = bool(row_i) and a1 == ("call", "std::ops::Index::index", (("upvar", "tags"), ("arg", 2))) and "chunk" in str(a0)
+        idx0 = [x for x in _walk_all(a0) if x[0] == "call" and x[1].endswith("Index::index")]
+        idx1 = flow.strip_casts(a1)
+        # row: <chunk>[i], tag: <tags>[i] with the same index expression i, from two different captured tables
+        tag_tbl_ok = idx1[0] == "call" and idx1[1].endswith("Index::index") and idx1[2][0][0] == "upvar" and idx1[2][1] == ("arg", 2)
+        via_call = any(x[2][1] == idx1[2][1] and flow.strip_casts(x[2][0]) != idx1[2][0] for x in idx0) if tag_tbl_ok else False
+        # `chunk[i]` on an array is a built-in index projection (kind 'i'; the index local is the closure's parameter)
+        a0s = flow.strip_casts(a0)
+        ups0 = [x for x in _walk_all(a0s) if x[0] == "upvar"]
+        via_proj = tag_tbl_ok and a0s[0] == "proj" and a0s[-1] == "i" and len(ups0) == 1 and ups0[0] != idx1[2][0]
+        oka = tag_tbl_ok and (via_call or via_proj)
     ctx.ob(rule, "gen:tag-i-to-row-i", oka, "concatenate_row_and_tag(chunk[i], tags[i])" if oka else "a row is concatenated with another row's tag", site_of(catb) if catb is not None else site_of(chunk_b))
     # sizes
     sp = flow.find_calls(outer, re.compile(r"TotalRecords::specified$"))
     okn = False
     if sp:
         e = flow.expr_of(outer, sp[0][1]["args"][0], max_depth=8)
-        okn = e[0] == "call" and e[1].endswith("div_round_up") and e[2][0] == ("call", "std::vec::Vec::<T, A>::len", (("upvar", "rows"),))
+        okn = e[0] == "call" and e[1].endswith("div_round_up") and e[2][0][0] == "call" and e[2][0][1].endswith("::len") and e[2][0][2][0][0] == "upvar"
     ctx.ob(rule, "gen:records=ceil(rows/chunk)", okn, "total records = div_round_up(rows.len(), TAG_CHUNK)" if okn else "the multiplication channels are not sized to the number of row chunks", site_of(outer, sp[0][0]) if sp else site_of(outer))
 
 
